@@ -34,6 +34,13 @@ and whose block ends in its only `return PRIMITIV_C_OK;`. -/
 theorem CApi.all_try_blocks : ∀ w ∈ table, w.tryBlockOk = true := by
   decide +kernel
 
+/-- The handler of every entry point catches `const std::exception &`: every
+standard exception (std::out_of_range from a map lookup, std::logic_error,
+std::bad_alloc, …), not only primitiv::Error, becomes PRIMITIV_C_ERROR with
+its `what()` as the message. -/
+theorem CApi.handler_catches_std_exception : ∀ w ∈ table, w.hasTry = true ∧ w.handler = .stdException := by
+  decide +kernel
+
 /-- Every dereferenced pointer parameter, and every dereferenced element of a
 pointer array, is null-checked first. -/
 theorem CApi.deref_implies_checked : ∀ w ∈ table, w.derefChecked = true := by
